@@ -74,7 +74,8 @@ MsgExtGood(r) ==
 
 (* C01 through the API: the receiving call returned, skipped, or raised a documented exception *)
 DocumentedExc == {"SnmpError", "SnmpDecodeError", "SnmpEncodeError", "SnmpAuthError", "NoSuchInstance", "TimeoutError", "BlockingIOError",
-                  "OSError", "ValueError", "StopIteration", "StopAsyncIteration", "ConnectionRefusedError", "NotImplementedError"}
+                  "OSError", "ValueError", "StopIteration", "StopAsyncIteration", "ConnectionRefusedError"}
+(* NotImplementedError (a RuntimeError) is not in the property's list: no receive path of the library raises it *)
 ApiGood(r) ==
   \/ r.exc = ""
   \/ /\ r.isexc                                             \* an Exception subclass (PanicException is not)
